@@ -7,7 +7,7 @@
 (* full iteration (logged as "all"), so that this check is about the       *)
 (* iterator contract and not about the legality of the moves (C01).        *)
 (***************************************************************************)
-EXTENDS MoveGenIter, Json, IOUtils, TLC
+EXTENDS MoveGenIter, Rules, Json, IOUtils, TLC
 
 Rec == ndJsonDeserialize(IOEnv.TRACE)
 VARIABLE l
@@ -18,8 +18,13 @@ MvOf(q)   == [f |-> q[1], t |-> q[2], p |-> q[3]]
 
 IsEv(e) == l <= Len(Rec) /\ Rec[l].event = e /\ l' = l + 1
 
-TNew  == IsEv("IterNew") /\ INew({MvOf(Rec[l].all[i]) : i \in 1..Len(Rec[l].all)})
-                         /\ (Len(Rec[l].all) = Cardinality({MvOf(Rec[l].all[i]) : i \in 1..Len(Rec[l].all)})) = TRUE
+Ch1(s, i) == SubSeq(s, i, i)
+EvEp(r)  == IF r.ep_raw = -1 THEN NoSq ELSE r.ep_raw + (IF r.stm = "w" THEN 8 ELSE -8)
+EvPos(r) == [b |-> [q \in Squares |-> Ch1(r.sq, q + 1)], stm |-> r.stm, cr |-> SeqSet(r.cr), ep |-> EvEp(r)]
+(* what is owed at the start: the legal moves of the position (the spec's, when the position is valid; *)
+(* otherwise what a plain full iteration of the same position yields)                                  *)
+BaseOf(r) == IF Valid(EvPos(r)) THEN LegalMoves(EvPos(r)) ELSE {MvOf(r.all[i]) : i \in 1..Len(r.all)}
+TNew  == IsEv("IterNew") /\ INew(BaseOf(Rec[l]))
 TMask == IsEv("SetMask") /\ ISetMask(SeqSet(Rec[l].mask))
 TNext == /\ IsEv("Next")
          /\ IF Len(Rec[l].ret) = 0 THEN INextNone ELSE INextSome(MvOf(Rec[l].ret))   \* [] = nothing returned
@@ -35,7 +40,7 @@ TISpec == TIInit /\ [][TINext]_tivars
 
 (* The spec branches (sibling don't-care), so acceptance is "some branch    *)
 (* consumed every line": track the furthest line reached.                   *)
-Reach == TLCSet(1, IF l > TLCGet(1) THEN l ELSE TLCGet(1))
+Furthest == TLCSet(1, IF l > TLCGet(1) THEN l ELSE TLCGet(1))
 ASSUME TLCSet(1, 0)
 Accepted ==
   LET d == TLCGet(1) - 1
